@@ -19,48 +19,62 @@ namespace GenericInstantiation {
 // 値: インスタンス化されたASTノード
 static std::map<std::string, std::unique_ptr<ASTNode>> instantiation_cache;
 
-// 正規化されたジェネリック型名を置換（例: "Box_T" + {"T"->"int"} -> "Box_int"）
+// instantiate_generic_function() / instantiate_generic_impl_method() の実行中
+// だけ設定される、ジェネリックenum名の問い合わせ（呼び出し側が渡したもの）
+static const GenericEnumPredicate *active_generic_enum_predicate = nullptr;
+
+namespace {
+struct GenericEnumPredicateScope {
+    const GenericEnumPredicate *previous;
+    explicit GenericEnumPredicateScope(const GenericEnumPredicate &predicate)
+        : previous(active_generic_enum_predicate) {
+        active_generic_enum_predicate = predicate ? &predicate : nullptr;
+    }
+    ~GenericEnumPredicateScope() { active_generic_enum_predicate = previous; }
+};
+} // namespace
+
+// 正規化されたジェネリックenum型名を置換
+// （例: "Option_T" + {"T"->"int"} -> "Option_int", "Result_T_E" など）
+// Only the parser's spelling of a generic enum at type arguments has this
+// form.  An identifier that merely contains '_' (`_N`, `Tail_`, `My__node`,
+// a struct literally called `Node_T`) is a plain name and is returned as is.
 static std::string substitute_normalized_generic_type(
     const std::string &type_name,
     const std::map<std::string, std::string> &type_map) {
 
-    // '_'で分割して型パラメータを探す
-    // 例: "Box_T" -> ["Box", "T"]
-    //     "Pair_T1_T2" -> ["Pair", "T1", "T2"]
-    std::vector<std::string> parts;
-    std::string current_part;
-
-    for (char c : type_name) {
-        if (c == '_') {
-            if (!current_part.empty()) {
-                parts.push_back(current_part);
-                current_part.clear();
+    // 基底名: ジェネリックenumとして知られている最長の接頭辞
+    // （問い合わせが無い場合は従来通り最初の '_' まで）
+    size_t base_end = std::string::npos;
+    if (active_generic_enum_predicate) {
+        for (size_t pos = type_name.find('_', 1); pos != std::string::npos;
+             pos = type_name.find('_', pos + 1)) {
+            if ((*active_generic_enum_predicate)(type_name.substr(0, pos))) {
+                base_end = pos;
             }
-        } else {
-            current_part += c;
         }
+    } else {
+        base_end = type_name.find('_');
     }
-    if (!current_part.empty()) {
-        parts.push_back(current_part);
-    }
-
-    if (parts.empty()) {
+    if (base_end == std::string::npos) {
         return type_name;
     }
 
-    // 最初の部分は構造体名
-    std::string result = parts[0];
-
-    // 残りの部分は型パラメータ
-    for (size_t i = 1; i < parts.size(); ++i) {
-        result += "_";
-        // 型パラメータを置換
-        auto it = type_map.find(parts[i]);
-        if (it != type_map.end()) {
-            result += it->second;
-        } else {
-            result += parts[i];
+    // 残りは '_' 区切りの型引数。空の部分もそのまま保持するので、
+    // 型パラメータが含まれなければ元の名前と同一になる
+    std::string result = type_name.substr(0, base_end);
+    size_t part_start = base_end + 1;
+    while (true) {
+        size_t part_end = type_name.find('_', part_start);
+        std::string part = type_name.substr(
+            part_start, part_end == std::string::npos ? std::string::npos
+                                                      : part_end - part_start);
+        auto it = type_map.find(part);
+        result += "_" + (it != type_map.end() ? it->second : part);
+        if (part_end == std::string::npos) {
+            break;
         }
+        part_start = part_end + 1;
     }
 
     return result;
@@ -706,7 +720,9 @@ static void rebuild_declared_return_type(const ASTNode *generic,
 // ジェネリック関数をインスタンス化
 std::unique_ptr<ASTNode>
 instantiate_generic_function(const ASTNode *func,
-                             const std::vector<std::string> &type_arguments) {
+                             const std::vector<std::string> &type_arguments,
+                             const GenericEnumPredicate &is_generic_enum) {
+    GenericEnumPredicateScope predicate_scope(is_generic_enum);
     if (!func || !func->is_generic) {
         throw std::runtime_error(
             "instantiate_generic_function: not a generic function");
@@ -744,10 +760,12 @@ instantiate_generic_function(const ASTNode *func,
 
 // ジェネリックimplブロックのメソッドを1つの型引数の組に対してインスタンス化
 std::unique_ptr<ASTNode> instantiate_generic_impl_method(
-    const ASTNode *method, const std::map<std::string, std::string> &type_map) {
+    const ASTNode *method, const std::map<std::string, std::string> &type_map,
+    const GenericEnumPredicate &is_generic_enum) {
     if (!method) {
         return nullptr;
     }
+    GenericEnumPredicateScope predicate_scope(is_generic_enum);
     // Every instantiation owns its copy of the method: parameters, locals and
     // the return type are declared with the substituted types, exactly as in
     // a hand-written impl for the concrete struct.  (The method's own type
